@@ -242,7 +242,7 @@ pub fn main(ctx: &Ctx) -> i32 {
     ctx.assume("a gated attempt (continues set, request without more) must return an error and write nothing even for a oneway request");
     ctx.set_exhaustive(true);
     let ops: &[&'static str] = ctx.tier.pick(OPS, OPS_EXT);
-    let maxlen = 5;
+    let maxlen = ctx.tier.pick(5, 6);
     let nw = workers();
     for len in 0..=maxlen {
         let total = ops.len().pow(len as u32);
